@@ -247,16 +247,56 @@ fn unsub_race(pipe: &'static str) -> Body {
   })
 }
 
+/// C05: a producer thread that pushes straight into the subscriber it was handed (no subject in
+/// between, no polling of is_subscribed) races unsubscribe
+fn unsub_race_create(pipe: &'static str) -> Body {
+  Box::new(move || {
+    let hs: Arc<std::sync::Mutex<Vec<vf::JoinHandle<()>>>> = Arc::new(std::sync::Mutex::new(vec![]));
+    let hs2 = hs.clone();
+    let src: Obs = Observable::create(move |ob: Observer<'static, i64>| {
+      let h = spawn(move || {
+        for x in [1i64, 2, 3] {
+          mark(&format!("emit+ p1 n {}", x));
+          ob.next(x);
+          mark(&format!("emit- p1 n {}", x));
+        }
+      });
+      hs2.lock().unwrap().push(h);
+    });
+    let o: Obs = match pipe {
+      "create_map" => src.map(|x: i64| x),
+      "create_tap" => src.tap(|_x: i64| {}, |_e| {}, || {}),
+      _ => src,
+    };
+    meta(serde_json::json!({"kind": "unsub_race", "pipe": pipe, "observers": ["A"], "sources": {"p1": [1, 2, 3]}}));
+    let sub = subscribe_rec(&o, "A");
+    mark("call+ unsubscribe A");
+    sub.unsubscribe();
+    mark("call- unsubscribe A");
+    let v: Vec<_> = hs.lock().unwrap().drain(..).collect();
+    for h in v {
+      let _ = h.join();
+    }
+    sub.unsubscribe();
+  })
+}
+
 /// C09: observe_on / subscribe_on hand events to the scheduler
 fn sched_op(variant: &'static str, end: &'static str, unsub: bool) -> Body {
   Box::new(move || {
     // the source emits from its own thread (hot) for observe_on, synchronously for subscribe_on
     let s = Sbj::new("subject");
+    // `_gap`: the source is quiet for 2 s (virtual) after its first item - the worker idles meanwhile
+    let gap = variant.ends_with("_gap");
+    let variant = variant.trim_end_matches("_gap");
     let cold: Obs = Observable::create(move |ob: Observer<'static, i64>| {
       for x in [1i64, 2, 3] {
         mark(&format!("emit+ p1 n {}", x));
         ob.next(x);
         mark(&format!("emit- p1 n {}", x));
+        if gap && x == 1 {
+          vf::sleep(Duration::from_secs(2));
+        }
       }
       if end == "c" {
         mark("emit+ p1 c 0");
@@ -283,7 +323,24 @@ fn sched_op(variant: &'static str, end: &'static str, unsub: bool) -> Body {
     meta(serde_json::json!({"kind": "sched_op", "variant": variant, "observers": ["A"], "sources": {"p1": [1, 2, 3]},
       "end1": end, "unsub": unsub, "take": if variant == "observe_on_take" { 2 } else { 99 }}));
     let sub = subscribe_rec(&o, "A");
-    let h1 = if hot { Some(producer(s.clone(), "p1", vec![1, 2, 3], end)) } else { None };
+    let h1 = if hot && gap {
+      let s = s.clone();
+      Some(spawn(move || {
+        s.next("p1", 1);
+        vf::sleep(Duration::from_secs(2));
+        s.next("p1", 2);
+        s.next("p1", 3);
+        match end {
+          "c" => s.complete("p1"),
+          "e" => s.error("p1", 900),
+          _ => {}
+        }
+      }))
+    } else if hot {
+      Some(producer(s.clone(), "p1", vec![1, 2, 3], end))
+    } else {
+      None
+    };
     if unsub {
       mark("call+ unsubscribe A");
       sub.unsubscribe();
@@ -330,6 +387,35 @@ fn scheduler(posters: usize, abort_inside: bool) -> Body {
       sch.abort();
       mark("call- abort 0");
     }
+  })
+}
+
+/// C08 variant: the queue is idle for 2 s (virtual) between two posts
+fn scheduler_idle() -> Body {
+  Box::new(move || {
+    use another_rxrust::schedulers::scheduler::IScheduler;
+    let sch = schedulers::NewThreadScheduler::new();
+    meta(serde_json::json!({"kind": "scheduler", "posters": 1, "per_poster": 2, "abort_inside": false, "quiescent_before_abort": true}));
+    let s2 = sch.clone();
+    let h = spawn(move || {
+      for id in 0..2 {
+        mark(&format!("call+ post {}", id));
+        s2.post(move || {
+          mark(&format!("task+ {}", id));
+          mark(&format!("task- {}", id));
+        });
+        mark(&format!("call- post {}", id));
+        if id == 0 {
+          vf::sleep(Duration::from_secs(2));
+        }
+      }
+    });
+    let _ = h.join();
+    // let the worker drain before the abort (abort discards what is still queued)
+    vf::sleep(Duration::from_secs(2));
+    mark("call+ abort 0");
+    sch.abort();
+    mark("call- abort 0");
   })
 }
 
@@ -613,7 +699,7 @@ pub fn catalogue() -> Vec<(String, Vec<&'static str>)> {
     v.push((format!("subj_join:{}:1", k), vec!["C12", "C07"]));
     v.push((format!("subj_join:{}:2", k), vec!["C12", "C07"]));
   }
-  for p in ["none", "map", "take", "observe_on", "map_observe_on"] {
+  for p in ["none", "map", "take", "observe_on", "map_observe_on", "create", "create_map", "create_tap"] {
     v.push((format!("unsub_race:{}", p), vec!["C05", "C07"]));
   }
   for var in ["observe_on", "observe_on_map", "map_observe_on", "observe_on_x2", "observe_on_take", "subscribe_on", "subscribe_on_map", "subscribe_on_observe_on"] {
@@ -626,6 +712,10 @@ pub fn catalogue() -> Vec<(String, Vec<&'static str>)> {
     v.push((format!("scheduler:{}:0", p), vec!["C08", "C07"]));
   }
   v.push(("scheduler:1:1".to_string(), vec!["C08", "C07"]));
+  v.push(("scheduler_idle".to_string(), vec!["C08", "C07"]));
+  for (var, e) in [("observe_on_gap", "c"), ("observe_on_map_gap", "e"), ("subscribe_on_observe_on_gap", "c")] {
+    v.push((format!("sched_op:{}:{}:0", var, e), vec!["C09", "C07", "C15"]));
+  }
   v.push(("scheduler_abort_race".to_string(), vec!["C08", "C07"]));
   for e in ["c", "e"] {
     v.push((format!("to_vec:{}", e), vec!["C18", "C07"]));
@@ -662,10 +752,12 @@ pub fn build(name: &str) -> Option<Body> {
     "comb2" if p.len() == 4 => Some(comb2(p[1], p[2], p[3], "c")),
     "comb2" if p.len() == 5 => Some(comb2(p[1], p[2], p[3], p[4])),
     "subj_join" if p.len() == 3 => Some(subj_join(p[1], p[2].parse().ok()?)),
+    "unsub_race" if p.len() == 2 && p[1].starts_with("create") => Some(unsub_race_create(p[1])),
     "unsub_race" if p.len() == 2 => Some(unsub_race(p[1])),
     "sched_op" if p.len() == 4 => Some(sched_op(p[1], p[2], p[3] == "1")),
     "scheduler" if p.len() == 3 => Some(scheduler(p[1].parse().ok()?, p[2] == "1")),
     "scheduler_abort_race" => Some(scheduler_abort_race()),
+    "scheduler_idle" => Some(scheduler_idle()),
     "to_vec" if p.len() == 2 => Some(to_vec(p[1], false)),
     "to_vec_rewake" if p.len() == 2 => Some(to_vec(p[1], true)),
     "workers" if p.len() == 3 => Some(workers(p[1], p[2])),
